@@ -4,8 +4,8 @@
 # and other work can go on.  Records the outcome in the seed's meta.json.
 TIER=quick
 if [ "${1:-}" = "quick" ] || [ "${1:-}" = "thorough" ]; then TIER=$1; shift; fi
-W=/tmp/b/SR
-[ -d $W ] || /verif/tools/builder_setup.sh SR >/dev/null
+W=/tmp/b/${SR_NAME:-SR}
+[ -d $W ] || /verif/tools/builder_setup.sh ${SR_NAME:-SR} >/dev/null
 git -C $W/repo checkout -q -- . ; git -C $W/repo checkout -q --detach "$(git -C /repo rev-parse HEAD)"
 rsync -a --delete --exclude target /verif/harness/src/ $W/harness/src/
 cp /verif/harness/Cargo.toml $W/harness/Cargo.toml; sed -i "s#path = \"/repo\"#path = \"$W/repo\"#" $W/harness/Cargo.toml
